@@ -69,6 +69,12 @@ type c15Etcd struct {
 	mid      []c15Change // applied right after the next snapshot (between Get and Watch)
 	nGet     int
 	nWatch   int
+	// Get faults, consumed one per call: "err" = fails at once, "block" = blocks until the
+	// request context is done (like a client whose server does not answer) and returns its error
+	faults    []string
+	nHealthy  int  // Get calls that arrived after the faults had stopped
+	nExpired  int  // ... of which the caller's context was already done (answered with its error)
+	ignoreCtx bool // clean-up only: answer even if the caller's context is done
 	problems []string // protocol surprises (wrong prefix, missing option): harness trouble
 }
 
@@ -119,10 +125,31 @@ func (f *c15Etcd) checkPrefix(what, key string, opts []clientv3.OpOption) {
 
 // Get answers with the snapshot of the model etcd and its revision; changes scripted as
 // "mid" hit the key space right after the snapshot was taken.
-func (f *c15Etcd) Get(_ context.Context, key string, opts ...clientv3.OpOption) (*clientv3.GetResponse, error) {
+func (f *c15Etcd) Get(ctx context.Context, key string, opts ...clientv3.OpOption) (*clientv3.GetResponse, error) {
 	f.mu.Lock()
+	if len(f.faults) > 0 {
+		ft := f.faults[0]
+		f.faults = f.faults[1:]
+		f.nGet++
+		f.mu.Unlock()
+		if ft == "block" {
+			select {
+			case <-ctx.Done():
+				return nil, ctx.Err()
+			case <-time.After(c15Timeout):
+				return nil, errors.New("c15: scripted Get blocked, request context has no deadline")
+			}
+		}
+		return nil, errors.New("c15: scripted Get failure")
+	}
 	defer f.mu.Unlock()
 	f.nGet++
+	f.nHealthy++
+	if err := ctx.Err(); err != nil && !f.ignoreCtx {
+		// like a real client: a request whose context is already done is not sent
+		f.nExpired++
+		return nil, err
+	}
 	f.checkPrefix("Get", key, opts)
 	keys := make([]string, 0, len(f.kv))
 	for k := range f.kv {
@@ -321,6 +348,9 @@ func runC15Case(c kit.Case) (v kit.Verdict) {
 		op := kit.Str(st["op"])
 		key := c15Prefix + "/" + kit.Str(st["k"])
 		trail = append(trail, op+":"+kit.Str(st["k"])+kit.Str(st["s"])+c15Mid(st["mid"]))
+		if f := c15Faults(st["faults"]); len(f) > 0 {
+			trail[len(trail)-1] += fmt.Sprintf("(Get faults %v)", f)
+		}
 		switch op {
 		case "init":
 			for _, k := range kit.List(st["keys"]) {
@@ -343,13 +373,23 @@ func runC15Case(c kit.Case) (v kit.Verdict) {
 				mid = append(mid, c15Change{del: kit.Str(mm["op"]) == "del", key: c15Prefix + "/" + k, val: c15Val(c, k)})
 			}
 			etcd.killWatchers()
+			faults := c15Faults(st["faults"])
 			etcd.mu.Lock()
 			etcd.mid = mid
+			etcd.faults, etcd.nHealthy, etcd.nExpired = faults, 0, 0
 			etcd.mu.Unlock()
 			before := etcd.watchCalls()
 			internal.VerifReload(endpoints, etcd)
 			// one load+watch per listened key; the driver listens on one prefix
-			if !kit.WaitFor(c15Timeout, func() bool { return etcd.watchCalls() >= before+1 }) {
+			if !kit.WaitFor(c15Bound(faults), func() bool { return etcd.watchCalls() >= before+1 }) {
+				if len(faults) > 0 {
+					if msg, stuck := etcd.stuckAfterFaults(); stuck {
+						etcd.heal()
+						kit.WaitFor(c15Timeout, func() bool { return etcd.watchCalls() >= before+1 })
+						return fail(i, "C15:reload:never-completes", fmt.Sprintf("step %d (reload, Get faults %v, RequestTimeout %v): %s [history %v]",
+							i, faults, internal.RequestTimeout, msg, trail))
+					}
+				}
 				return infra("reload did not register a new watch\n" + kit.Stacks())
 			}
 			up = true
@@ -361,9 +401,39 @@ func runC15Case(c kit.Case) (v kit.Verdict) {
 			if s.excl {
 				opts = append(opts, discov.Exclusive())
 			}
-			sub, err := discov.NewSubscriber(endpoints, c15Prefix, opts...)
-			if err != nil {
-				return infra("NewSubscriber: " + err.Error())
+			faults := c15Faults(st["faults"])
+			etcd.mu.Lock()
+			etcd.faults, etcd.nHealthy, etcd.nExpired = faults, 0, 0
+			etcd.mu.Unlock()
+			type subRes struct {
+				sub *discov.Subscriber
+				err error
+			}
+			resCh := make(chan subRes, 1)
+			go func() {
+				sub, err := discov.NewSubscriber(endpoints, c15Prefix, opts...)
+				resCh <- subRes{sub, err}
+			}()
+			var sub *discov.Subscriber
+			select {
+			case r := <-resCh:
+				if r.err != nil {
+					return infra("NewSubscriber: " + r.err.Error())
+				}
+				sub = r.sub
+			case <-time.After(c15Bound(faults)):
+				if len(faults) > 0 {
+					if msg, stuck := etcd.stuckAfterFaults(); stuck {
+						etcd.heal()
+						select {
+						case <-resCh:
+						case <-time.After(c15Timeout):
+						}
+						return fail(i, "C15:load:never-completes", fmt.Sprintf("step %d (NewSubscriber %s, Get faults %v, RequestTimeout %v): %s [history %v]",
+							i, name, faults, internal.RequestTimeout, msg, trail))
+					}
+				}
+				return infra("NewSubscriber did not return\n" + kit.Stacks())
 			}
 			s.sub = sub
 			// "a subscriber that joins ... immediately sees the current set": compared before anything
@@ -455,6 +525,42 @@ func c15Val(_ kit.Case, k string) string {
 	panic("c15: no value for key " + k + " in VERIF_C15_VALOF")
 }
 
+func c15Faults(v any) []string {
+	var out []string
+	for _, x := range kit.List(v) {
+		out = append(out, kit.Str(x))
+	}
+	return out
+}
+
+// c15Bound is how long a load may take: every fault costs at most the request time-out plus
+// the one-second cool-down before the retry; then a generous margin.
+func c15Bound(faults []string) time.Duration {
+	if len(faults) == 0 {
+		return c15Timeout
+	}
+	return time.Duration(len(faults))*(internal.RequestTimeout+time.Second) + 6*time.Second
+}
+
+// stuckAfterFaults tells a load that cannot finish from a stalled machine: the faults are used
+// up, the cluster kept calling Get afterwards (so it is running), and every such call came with
+// a request context that was already done.
+func (f *c15Etcd) stuckAfterFaults() (string, bool) {
+	f.mu.Lock()
+	defer f.mu.Unlock()
+	if len(f.faults) > 0 || f.nHealthy < 2 || f.nExpired != f.nHealthy {
+		return "", false
+	}
+	return fmt.Sprintf("the registry answers again, but load never finished: %d further Get calls all carried a request context that was already done "+
+		"(snapshot never applied, watch never restarted)", f.nHealthy), true
+}
+
+func (f *c15Etcd) heal() {
+	f.mu.Lock()
+	f.ignoreCtx = true
+	f.mu.Unlock()
+}
+
 func c15Mid(v any) string {
 	var out []string
 	for _, m := range kit.List(v) {
@@ -505,6 +611,13 @@ func c15Kind(got []string, exp any) string {
 
 func TestVerifC15(t *testing.T) {
 	logx.SetWriter(c15Logger)
+	if ms := kit.EnvInt("VERIF_C15_REQ_TIMEOUT_MS", 0); ms > 0 {
+		// exported package variable (default 3 s): shortened for the Get-fault cases so that a
+		// blocking Get costs little real time
+		old := internal.RequestTimeout
+		internal.RequestTimeout = time.Duration(ms) * time.Millisecond
+		defer func() { internal.RequestTimeout = old }()
+	}
 	rep, err := kit.NewReporter(kit.Env("VERIF_OUT", ""))
 	if err != nil {
 		t.Fatal(err)
